@@ -131,7 +131,7 @@ class Report:
     # -- finishing ------------------------------------------------------------------
     def finish(self) -> int:
         wall = time.time() - self.t0
-        EVIDENCE_DIR.mkdir(exist_ok=True)
+        EVIDENCE_DIR.mkdir(parents=True, exist_ok=True)
         seen_known = {}
         for e, v in self.known:
             seen_known.setdefault(e["key"], (e, v, 0))
